@@ -132,6 +132,30 @@ theorem totals_le_supply (epoch block dsc maxApr minUnbond perBlock : Nat) (acct
   · split <;> omega
   · exact Nat.le_refl _
 
+/-- **transferred and then used by another account.**  In a state that satisfies the invariant
+    (every reachable state), when an account `c` claims with units of a position whose recorded
+    owner is somebody else (it got them by a plain transfer), exactly the amount sent moves from
+    the recorded owner's total — which contains it, nothing saturates — to `c`'s total, nobody
+    else's total changes, and the position handed out records `c` as its owner. -/
+theorem foreign_position_used {s s' : St} {c : Nat} {pay : Pay} {o : Out} {a : Attrs}
+    (hI : PosInv s) (hc : c ∈ s.accts) (h : claimCore s c c [pay] none = some (s', o))
+    (ha : posOf s.md pay.1 = some a) (hne : a.owner ≠ c) :
+    pay.2 ≤ s.userTotal a.owner ∧ s'.userTotal a.owner = s.userTotal a.owner - pay.2 ∧
+    s'.userTotal c = s.userTotal c + pay.2 ∧
+    (∀ u, u ≠ c → u ≠ a.owner → s'.userTotal u = s.userTotal u) ∧
+    (∃ t, s'.md (s.nonce + 1) = some (.pos t) ∧ t.owner = c ∧ t.amount = pay.2) :=
+  claimCore_foreign hI hc h ha hne
+
+/-- `decrease_user_farm_position` on unstake is an exact subtraction (the code's saturating
+    "`total > amount ? total − amount : clear`" never hides a shortfall): the recorded owner's
+    total contains the part taken out, and supply and that total drop by exactly this part -/
+theorem unstake_decrease_exact {s s' : St} {c orig : Nat} {pay : Pay} {x : Option Nat} {o : Out}
+    (hI : PosInv s) (hc : c ∈ s.accts) (h : unstakeCore s c orig pay x = some (s', o)) :
+    ∃ a, posOf s.md pay.1 = some a ∧ pay.2 ≤ s.userTotal a.owner ∧
+      s'.userTotal a.owner = s.userTotal a.owner - pay.2 ∧
+      (∀ u, u ≠ a.owner → s'.userTotal u = s.userTotal u) ∧ s'.supply + pay.2 = s.supply :=
+  unstakeCore_total_exact hI hc h
+
 /-- non-vacuity / the "transferred and then used by another account" scenario: user 1 stakes
     1000 and 500, transfers 400 units of the first position to user 2; user 2 claims with them
     (the 400 move from user 1's total to user 2's, the new position records user 2); user 1
